@@ -9,7 +9,7 @@ CfgOf(in) == [mode |-> in.cfg.mode, min |-> in.cfg.min, max |-> in.cfg.max,
 
 Ref(in) == WalkRoots(in.tree, CfgOf(in), in.roots)
 
-InDomain(in) == TRUE
+InDomain(in, obs) == TRUE
 
 Conforms(in, obs) ==
   LET cfg == CfgOf(in)
